@@ -426,6 +426,22 @@ func (fs *realFS) kind(dir string, base string) (symlink string, kind EntryKind)
 	// Follow symlinks now so the cache contains the translation
 	if (mode & os.ModeSymlink) != 0 {
 		link, err := fs.fp.evalSymlinks(entryPath)
+
+		// Store data for watch mode
+		if fs.watchData != nil {
+			fs.watchMutex.Lock()
+			accessed := fs.watchData[dir].accessedEntries
+			fs.watchMutex.Unlock()
+			if accessed != nil {
+				accessed.mutex.Lock()
+				if accessed.symlinks == nil {
+					accessed.symlinks = make(map[string]string)
+				}
+				accessed.symlinks[base] = link
+				accessed.mutex.Unlock()
+			}
+		}
+
 		if err != nil {
 			return // Skip over this entry
 		}
@@ -511,6 +527,14 @@ func (fs *realFS) WatchData() WatchData {
 						if originalName, isPresent := lookup[name]; wasPresent != isPresent {
 							return fs.Join(path, originalName)
 						}
+					}
+				}
+
+				// Check that every symlink still points to the same thing
+				for name, oldLink := range data.accessedEntries.symlinks {
+					entryPath := fs.Join(path, name)
+					if link, _ := fs.fp.evalSymlinks(entryPath); link != oldLink {
+						return entryPath
 					}
 				}
 				return ""
